@@ -1,0 +1,18 @@
+// SPDX-FileCopyrightText: The go-mail Authors
+//
+// SPDX-License-Identifier: MIT
+
+//go:build verif
+
+package mail
+
+// VerifHook is installed by the verification harness (build tag verif only). It is called by
+// the base64 line breaker at the beginning of every Write ("b64.write", length of the data,
+// characters buffered for the current line) and of Close ("b64.close", 0, characters buffered).
+var VerifHook func(event string, a, b int)
+
+func verifHook(event string, a, b int) {
+	if h := VerifHook; h != nil {
+		h(event, a, b)
+	}
+}
